@@ -21,7 +21,10 @@ ID = "C08"
 RULE = ("struct: class bodies = items {function, classmethod, staticmethod, property(getter/setter/deleter), "
         "cached_property, wrapped function / foreign descriptor, plain attribute, user __getattr__/__setattr__/"
         "__attrs_init_subclass__} x closure use {__class__, super(), none} x cell sharing {compiler cell shared by all "
-        "methods, private cell, cell holding another object, empty cell} x metaclass {type, custom, ABCMeta} x api "
+        "methods, private cell, the old class captured under another name, empty cell, cells holding OTHER objects of many kinds: "
+        "another class, a class equal to every class, an always-equal object, unittest.mock.ANY, a never-equal object, objects "
+        "whose __eq__ raises TypeError / ValueError / a BaseException-only exception, a plain value -- each must be left holding "
+        "the very same object, checked by identity, and decoration must not raise} x metaclass {type, custom, ABCMeta} x api "
         "{attr.s, define, these=} x weakref_slot x cache_hash x {mutable, frozen, hooks} x base chains (<=3 + a plain mixin as second direct base, BEFORE or "
         "after the chain's class: multiple inheritance where the attrs base is direct but not __base__; plus a targeted family "
         "mixin x (un)hooked dict/slotted attrs base) of "
@@ -58,6 +61,8 @@ ASSUMPTIONS = [
     "may hit K3), for a body-level __slots__ and for body keys shadowing inherited fields; multiple inheritance is exercised in "
     "the struct and isub parts only (initbuild's chains, used by the meta part, are single-inheritance); __set_name__ of foreign "
     "descriptors being re-run for the new class is observed as a runtime fact; ABCMeta abstract-method bookkeeping is not probed",
+    "struct: what an 'other' closure cell holds is harness-only variation: the model (and C08_cells_exact) says every cell not "
+    "holding the original class is untouched whatever it holds, so the object kinds need no counterpart in the Lean CellVal",
     "struct: the earlier classes of a case's history are context only (their own defects are reported when they are the class "
     "under test); the Lean model is a function of the class under test alone, so any influence of the history is a violation or a "
     "disagreement; hasattr / getattr-default / copy / deepcopy are observed consequences of 'unknown attribute -> AttributeError'",
@@ -78,6 +83,8 @@ PARALLEL = True
 LEVEL_TEXT = "see below"
 
 FIELD_POOL = ["x", "y", "z", "w"]
+OTHER_KINDS = ["class", "class", "anyeq", "anyeq", "mock_any", "nevereq", "eq_typeerror", "eq_valueerror", "eq_baseexc",
+               "eqclass", "value"]
 SLOT_POOL = ["x", "y", "s1", "s2"]
 
 
@@ -93,9 +100,9 @@ def _fnspec(rng, natural, cell_pool, role, p_use=0.65):
     cells = []
     if uses:
         cells.append(rng.choice([0, 0, 0] + olds))
-    if rng.random() < 0.3:
+    if rng.random() < 0.4:
         ids = [i for i, _ in cell_pool]
-        extra = rng.sample(ids, min(len(ids), rng.choice([1, 1, 2])))
+        extra = rng.sample(ids, min(len(ids), rng.choice([1, 1, 2, 3])))
         cells += [i for i in extra if i not in cells]
     return {"cells": cells, "uses": uses, "use": use}
 
@@ -190,9 +197,9 @@ def gen_struct(rng):
     if natural:
         cell_pool = [[0, "old"]]
     else:
-        cell_pool = [[0, "old"], [1, "old"], [2, "other"], [3, "empty"], [4, "old"]]
+        cell_pool = [[0, "old"], [1, "old"], [2, "other"], [3, "empty"], [4, "old"], [5, "other"], [6, "other"]]
         rng.shuffle(cell_pool)
-        cell_pool = cell_pool[: rng.choice([1, 3, 5])]
+        cell_pool = cell_pool[: rng.choice([1, 3, 5, 7])]
         if not any(i == 0 for i, _ in cell_pool):
             cell_pool.append([0, "old"])
     # ---- items
@@ -246,6 +253,9 @@ def gen_struct(rng):
         hs["cells"] = [[0, "old"]] if 0 in used else []
     else:
         hs["cells"] = sorted([c for c in cell_pool if c[0] in used or rng.random() < 0.5])
+    # what the "other" cells hold (harness-only: the build must leave every such cell holding that very object,
+    # whatever its __eq__ says or raises)
+    hs["cell_objs"] = {str(c[0]): rng.choice(OTHER_KINDS) for c in hs["cells"] if c[1] == "other"}
     # ---- cached-property history
     avail = [k for k, s in items if s["k"] == "cprop" and k not in inherited and k not in own]
     for bs in bases:
@@ -523,6 +533,7 @@ def dist(case, obs):
             "s.mixin": ((hs["mixin"] or {}).get("kind") or "-") + ("/first" if (hs["mixin"] or {}).get("first") else ""),
             "s.assignAgree": obs.get("assignAgree") if isinstance(obs, dict) else "?",
             "s.history": "+".join(hs.get("history", [])) or "-",
+            "s.other_cells": "+".join(sorted(set((hs.get("cell_objs") or {}).values()))) or "-",
             "s.hookCalls": len(obs.get("hookCalls", [])) if isinstance(obs, dict) else "?",
             "s.n_items": len(hs["items"]), "s.n_fields": len(hs["fields"]),
             "s.item_kinds": "+".join(sorted({s["k"] for _, s in hs["items"]})) or "-",
@@ -598,6 +609,11 @@ def shrink(case):
             h2 = copy.deepcopy(hs)
             h2["cells"] = [c for c in hs["cells"] if c[0] in used_cells]
             cands.append(h2)
+        for cid, kind in (hs.get("cell_objs") or {}).items():
+            if kind != "class":
+                h2 = copy.deepcopy(hs)
+                h2["cell_objs"][cid] = "class"
+                cands.append(h2)
         if len(hs.get("history", [])) > 1:
             for i in range(len(hs["history"])):
                 h2 = copy.deepcopy(hs)
@@ -701,6 +717,7 @@ def _repair(hs):
         hs["cells"].append([u, "old"])
     if hs.get("natural"):
         hs["cells"] = [[0, "old"]] if 0 in used else []
+    hs["cell_objs"] = {str(c[0]): (hs.get("cell_objs") or {}).get(str(c[0]), "class") for c in hs["cells"] if c[1] == "other"}
     inherited = set(cs.inherited_names(hs))
     user_getattr = any(k == "__getattr__" for k, _ in hs["items"])
     avail = {k for k, s in hs["items"] if s["k"] == "cprop" and k not in inherited and k not in own}
